@@ -1110,7 +1110,11 @@ func scExec(input sx.S) sx.S {
 			cites = scCites(err.Error(), text)
 			msg = sx.Hex(err.Error())
 		}
-		out = append(out, sx.L("r", res, cites, msg, same, scItemsSx("view", scWalk(root)), scOps(root)))
+		rec := sx.L("r", res, cites, msg, same, scItemsSx("view", scWalk(root)), scOps(root))
+		if err == nil {
+			rec = append(rec, scListed(root))
+		}
+		out = append(out, rec)
 	}
 	return out
 }
@@ -1139,6 +1143,51 @@ func scFiles(items []scItem, seed int) fstest.MapFS {
 		fsys["f"+strconv.Itoa(j)+".graphql"] = &fstest.MapFile{Data: []byte(text)}
 	}
 	return fsys
+}
+
+// scListed: the types and directives in the order the root lists them, as (kind, bytes of the name)
+func scListed(root *ggql.Root) sx.S {
+	entry := func(t ggql.Type) sx.S {
+		k := -1
+		switch t.(type) {
+		case *ggql.Scalar:
+			k = 0
+		case *ggql.Object:
+			k = 1
+		case *ggql.Interface:
+			k = 2
+		case *ggql.Union:
+			k = 3
+		case *ggql.Enum:
+			k = 4
+		case *ggql.Input:
+			k = 5
+		case *ggql.Directive:
+			k = 6
+		case *ggql.Schema:
+			k = 7
+		}
+		if k < 0 {
+			return nil
+		}
+		bs := []sx.S{}
+		for _, c := range []byte(t.Name()) {
+			bs = append(bs, sx.A(int(c)))
+		}
+		return sx.L(sx.A(k), bs)
+	}
+	ts, ds := []sx.S{"types"}, []sx.S{"dirs"}
+	for _, t := range root.Types() {
+		if e := entry(t); e != nil {
+			ts = append(ts, e)
+		}
+	}
+	for _, t := range root.Directives() {
+		if e := entry(t); e != nil {
+			ds = append(ds, e)
+		}
+	}
+	return sx.L("listed", ts, ds)
 }
 
 func scListing(root *ggql.Root) string {
